@@ -1,6 +1,6 @@
 SPECIFICATION SpecAll
 CONSTANTS
-  MaxAdd = 4
+  MaxAdd = 3
   Prims <- BothPrims
   Arrivals <- TwoArrivals
   HashRank <- GHashRank
@@ -8,7 +8,7 @@ CONSTANTS
   OpKinds <- StructKinds
   PhaseAdds = 0
   ObsKind = "none"
-  Depth = 5
+  Depth = 4
 INVARIANTS TypeOK LiveExact LeavesChildless BestIsBestLeaf
 VIEW View
 CHECK_DEADLOCK FALSE
